@@ -9,8 +9,10 @@ cd "$ROOT"
 LIBC=$(tools/build_lib.sh c-san)
 LIBX=$(tools/build_lib.sh cxx-san)
 mkdir -p build/obj build/bin
-HDRKEY=$(cat src/*.hpp "$LIBC/yaep.h" tools/build_harness.sh | sha256sum | cut -c1-12)
-CXX="clang++ -std=gnu++17 -O1 -g -fsanitize=address,undefined -fno-sanitize-recover=undefined -fno-omit-frame-pointer -Wall -Wno-unused-function -Wno-sign-compare -I$LIBC -Isrc"
+REPO=${REPO:-/repo}
+HDRKEY=$(cat src/*.hpp "$LIBC/yaep.h" "$REPO"/src/allocate.h "$REPO"/src/hashtab.h "$REPO"/src/objstack.h "$REPO"/src/vlobject.h tools/build_harness.sh | sha256sum | cut -c1-12)
+CXX="clang++ -std=gnu++17 -O1 -g -fsanitize=address,undefined -fno-sanitize-recover=undefined -fno-omit-frame-pointer -Wall -Wno-unused-function -Wno-sign-compare -I$LIBC -Isrc -I$REPO/src"
+CC="clang -O1 -g -fsanitize=address,undefined -fno-sanitize=pointer-overflow -fno-sanitize-recover=undefined -fno-omit-frame-pointer -w -I$REPO/src"
 pids=""
 objs=""
 for f in src/*.cpp; do
@@ -21,6 +23,16 @@ for f in src/*.cpp; do
   if [ ! -f "$o" ]; then
     rm -f build/obj/$b-*.o
     ( $CXX -c "$f" -o "$o.tmp" 2>"build/obj/$b.log" && mv "$o.tmp" "$o" ) & pids="$pids $!"
+  fi
+done
+for f in src/*.c; do
+  b=$(basename "$f" .c)
+  k=$( (cat "$f"; echo "$HDRKEY") | sha256sum | cut -c1-12)
+  o="build/obj/$b-$k.o"
+  objs="$objs $o"
+  if [ ! -f "$o" ]; then
+    rm -f build/obj/$b-*.o
+    ( $CC -c "$f" -o "$o.tmp" 2>"build/obj/$b.log" && mv "$o.tmp" "$o" ) & pids="$pids $!"
   fi
 done
 fail=0
